@@ -238,11 +238,16 @@ class Interp:
     MAX_DEPTH = 4
 
     def __init__(self, pkg: Package, assumptions=None, param_classes=None, inline=True, inline_only=None,
-                 no_inline=(), self_class=None, param_values=None):
+                 no_inline=(), self_class=None, param_values=None, valuation=None):
         self.pkg = pkg
         self.assumptions = assumptions or {}      # sym name -> python constant / 'none' / 'notnone' / ('inst', cls)
         self.param_classes = param_classes or {}  # param name -> class name
         self.param_values = param_values or {}    # param name -> abstract value
+        self.valuation = list(valuation or [])     # [(Form, number)]: assumed numeric value of a sub-term (e.g. a length)
+        self.cmp_points: set = set()               # numeric values met in decided order/equality comparisons
+        self.nested_raises: list = []              # raise outcomes inside inlined callees that also have returning paths
+        self.keep_cond_forms = False               # record the value form of every undecided `if` test (by its source text)
+        self.cond_forms: dict = {}
         self.inline = inline
         self.inline_only = inline_only
         self.no_inline = set(no_inline)
@@ -280,6 +285,9 @@ class Interp:
             self._stack.pop()
 
     def _seed_facts(self, st):
+        for f, val in self.valuation:
+            st.facts.eq[f.key()] = val
+            st.facts.none[f.key()] = False
         items = []
         for name, a in self.assumptions.items():
             if isinstance(a, list):
@@ -523,6 +531,14 @@ class Interp:
         a = State(fork_env(st.env), st.facts.copy(), list(st.conds))
         b = State(fork_env(st.env), st.facts.copy(), list(st.conds))
         src = src_of(s.test)
+        if self.keep_cond_forms:
+            ncalls, nnotes = len(self.calls), len(self.none_arith)
+            try:
+                self.cond_forms[src] = self.eval(s.test, State(fork_env(st.env), st.facts.copy(), list(st.conds)), fi, depth)
+            except Exception:
+                pass
+            del self.calls[ncalls:]
+            del self.none_arith[nnotes:]
         a.conds.append((src, True))
         b.conds.append((src, False))
         self._refine(s.test, a, fi, depth, True)
@@ -771,6 +787,7 @@ class Interp:
             if isinstance(op, (ast.Lt, ast.LtE, ast.Gt, ast.GtE)):
                 lv, rv = self._concrete(l, st), self._concrete(r, st)
                 if isinstance(lv, Fraction) and isinstance(rv, Fraction):
+                    self.cmp_points.update((lv, rv))
                     return {ast.Lt: lv < rv, ast.LtE: lv <= rv, ast.Gt: lv > rv, ast.GtE: lv >= rv}[type(op)]
                 return None
             return None
@@ -798,7 +815,29 @@ class Interp:
             e = st.facts.eq.get(v.key())
             if isinstance(e, (int, float)) and not isinstance(e, bool):
                 return Fraction(repr(e)) if isinstance(e, float) else Fraction(e)
+            w = self._valuate(v, st)
+            if w is not None:
+                return w.rational()
         return None
+
+    def _valuate(self, v, st):
+        """the form with every atom that has an assumed numeric value replaced by it (None if nothing to replace)"""
+        eq = st.facts.eq
+        if not eq or not isinstance(v, Form):
+            return None
+        hit = [False]
+
+        def rep(a):
+            e = eq.get(Form.atom(a).key())
+            if isinstance(e, (int, float, Fraction)) and not isinstance(e, bool):
+                hit[0] = True
+                return Form.num(Fraction(repr(e)) if isinstance(e, float) else e)
+            return None
+        try:
+            w = v.subst(rep)
+        except Exception:
+            return None
+        return w if hit[0] else None
 
     def _truthy(self, v, st):
         if isinstance(v, Const):
@@ -812,6 +851,12 @@ class Interp:
                 return st.facts.truth[k]
             if st.facts.none.get(k) is True:
                 return False
+            e = st.facts.eq.get(k)
+            if isinstance(e, (int, float, Fraction)) and not isinstance(e, bool):
+                return e != 0
+            w = self._valuate(v, st)
+            if w is not None and w.const_value() is not None:
+                return w.const_value() != (F0, F0)
             return None
         if isinstance(v, (TupleV,)):
             return len(v.items) > 0
@@ -883,6 +928,9 @@ class Interp:
             e = st.facts.eq.get(v.key())
             if e is not None:
                 return e.v if isinstance(e, Const) else e
+            w = self._valuate(v, st)
+            if w is not None and w.const_value() is not None:
+                return self._const_of(w, st)
         return _MISSING
 
     def _in(self, l, r, st):
@@ -957,6 +1005,8 @@ class Interp:
         if isinstance(v, TupleV):
             tn = v.kind
             return True if tn in classes else (None if unknown else False)
+        if isinstance(v, SliceV):
+            return True if "slice" in classes else (None if unknown else False)
         if isinstance(v, Form):
             k = v.key()
             inst = st.facts.inst.get(k)
@@ -1717,6 +1767,8 @@ class Interp:
         rec_out = getattr(rec, "result", None)
         self._callee_outcomes = getattr(self, "_callee_outcomes", {})
         self._callee_outcomes[id(n)] = outs
+        if rets:
+            self.nested_raises.extend(raises)
         if not rets:
             # every path raises: the caller's path ends here
             if raises:
